@@ -50,6 +50,8 @@ class ExcAnalysis:
         self.special_calls = {}
         self.boundary = {}      # function key -> reason (not descended)
         self.boundary_hits = {}
+        self.opaque_hits = {}   # context manager deciding the fate -> class
+        self.cur_func = None
 
     # ---- class matching --------------------------------------------------
 
@@ -117,6 +119,7 @@ class ExcAnalysis:
             return {}
         self.in_progress.add(func.key)
         self.functions.add(func.key)
+        self.cur_func = func
         parents = enclosing_chain(func.node)
         facts = []          # (node, class, chain)
         local_types = self._local_types(func)
@@ -166,6 +169,7 @@ class ExcAnalysis:
                     facts.append((node, cls_, [
                         f'{func.key}: {why} ({func.where(node)})']))
         out = {}
+        self.cur_func = func
         for node, cls_, chain in facts:
             if not self._absorbed(node, cls_, parents):
                 out.setdefault(cls_, chain)
@@ -182,6 +186,15 @@ class ExcAnalysis:
             if isinstance(par, ast.Try) and any(cur is s for s in par.body):
                 if self.caught_by(par.handlers, cls_) is not None:
                     return True
+            if isinstance(par, ast.With) and any(
+                    cur is s for s in par.body):
+                why = self._opaque_manager(par)
+                if why is not None:
+                    # a context manager of the package whose exit handler
+                    # raises or swallows: what happens to the exception is
+                    # decided there, not read by this analysis
+                    self.opaque_hits.setdefault(why, cls_)
+                    return True
             if isinstance(par, ast.With):
                 # contextlib.suppress(X)
                 for item in par.items:
@@ -192,6 +205,43 @@ class ExcAnalysis:
                                 for a in ctx.args):
                         return True
             cur = par
+
+    def _opaque_manager(self, withnode):
+        for item in withnode.items:
+            ctx = item.context_expr
+            if not isinstance(ctx, ast.Call):
+                continue
+            func = self.cur_func
+            try:
+                res = self.program.resolve_name_expr(func.module, ctx.func,
+                                                     func)
+            except Exception:       # pylint: disable=broad-except
+                res = None
+            if res is None and isinstance(ctx.func, ast.Attribute) and \
+                    isinstance(ctx.func.value, ast.Name) and \
+                    ctx.func.value.id in ('self', 'cls') and \
+                    func.cls is not None:
+                res = self.program.find_method(func.cls, ctx.func.attr)
+            exit_ = None
+            if hasattr(res, 'methods'):
+                exit_ = self.program.find_method(res, '__exit__')
+                if exit_ is not None and any(
+                        isinstance(n, ast.Raise) or (
+                            isinstance(n, ast.Return) and not (
+                                n.value is None or (isinstance(
+                                    n.value, ast.Constant) and
+                                    n.value.value in (False, None))))
+                        for n in walk_local(exit_.node)):
+                    return f'{res.name}.__exit__ ({exit_.where()})'
+            elif hasattr(res, 'node') and any(
+                    'contextmanager' in txt(d)
+                    for d in res.node.decorator_list):
+                for tri in walk_local(res.node):
+                    if isinstance(tri, ast.Try) and tri.handlers and any(
+                            isinstance(n, ast.Yield)
+                            for st in tri.body for n in ast.walk(st)):
+                        return f'{res.name} ({res.where()})'
+        return None
 
     def _raised_classes(self, node, parents):
         exc = node.exc
